@@ -353,14 +353,210 @@ impl Check for C08ExprSlice {
     }
 }
 
+// ---------------------------------------------------------------- thousands of rows
+
+/// Thousands of rows with few distinct sort keys: anything that only happens once a buffer,
+/// batch or capacity is exceeded (a top-N structure pruned in batches, a counter, a hash table
+/// that grows) is invisible below that size. The rows are derived from (n, seed), so the
+/// replay file stays small.
+#[derive(Clone, Debug, Serialize, Deserialize)]
+pub struct CaseLarge {
+    pub n: u32,
+    pub seed: u64,
+    /// number of distinct values of .k (ties are long runs)
+    pub keys: u8,
+    /// one row in `absent_every` has no .k (0 = never)
+    pub absent_every: u8,
+    /// 0 none, 1 .k, 2 .k then .g, 3 .g then .k
+    pub sort: u8,
+    pub desc: bool,
+    pub unique: bool,
+    /// 0 none, 1 group-by .gs, 2 merge
+    pub group: u8,
+    pub skip: u32,
+    pub take: Option<u32>,
+}
+
+fn mix(mut x: u64) -> u64 {
+    x = x.wrapping_add(0x9e3779b97f4a7c15);
+    x = (x ^ (x >> 30)).wrapping_mul(0xbf58476d1ce4e5b9);
+    x = (x ^ (x >> 27)).wrapping_mul(0x94d049bb133111eb);
+    x ^ (x >> 31)
+}
+
+pub struct C08Large;
+impl C08Large {
+    fn input(c: &CaseLarge) -> Vec<u8> {
+        let mut out = Vec::with_capacity(c.n as usize * 40);
+        for i in 0..c.n as u64 {
+            let h = mix(c.seed ^ i);
+            let k = h % c.keys.max(1) as u64;
+            let g = (h >> 20) % 5;
+            if c.unique {
+                // rows repeat: the serial number is left out
+                if c.absent_every > 0 && (h >> 40) % c.absent_every as u64 == 0 {
+                    out.extend_from_slice(format!("{{\"g\":{},\"gs\":\"g{}\",\"u\":{}}}\n", g, g, (h >> 8) % 97).as_bytes());
+                } else {
+                    out.extend_from_slice(format!("{{\"k\":{},\"g\":{},\"gs\":\"g{}\",\"u\":{}}}\n", k, g, g, (h >> 8) % 97).as_bytes());
+                }
+            } else if c.absent_every > 0 && (h >> 40) % c.absent_every as u64 == 0 {
+                out.extend_from_slice(format!("{{\"i\":{},\"g\":{},\"gs\":\"g{}\"}}\n", i, g, g).as_bytes());
+            } else {
+                out.extend_from_slice(format!("{{\"i\":{},\"k\":{},\"g\":{},\"gs\":\"g{}\"}}\n", i, k, g, g).as_bytes());
+            }
+        }
+        out
+    }
+    fn args(c: &CaseLarge, limits: bool, group: bool) -> Vec<String> {
+        let mut a = Vec::new();
+        if c.unique {
+            a.push("--unique".to_string());
+        }
+        let d = if c.desc { "=DESC" } else { "" };
+        match c.sort {
+            1 => a.push(format!("--sort-by=.k{}", d)),
+            2 => {
+                a.push(format!("--sort-by=.k{}", d));
+                a.push("--sort-by=.g".to_string());
+            }
+            3 => {
+                a.push("--sort-by=.g".to_string());
+                a.push(format!("--sort-by=.k{}", d));
+            }
+            _ => {}
+        }
+        if limits {
+            if c.skip > 0 {
+                a.push(format!("--skip={}", c.skip));
+            }
+            if let Some(t) = c.take {
+                a.push(format!("--take={}", t));
+            }
+        }
+        if group {
+            match c.group {
+                1 => a.push("--group-by=.gs".to_string()),
+                2 => a.push("--merge".to_string()),
+                _ => {}
+            }
+        }
+        a
+    }
+}
+impl Check for C08Large {
+    type Case = CaseLarge;
+    fn name(&self) -> &'static str {
+        "C08.large"
+    }
+    fn cases(&self, tier: Tier) -> u64 {
+        tier.pick(480, 6_000)
+    }
+    fn strategy(&self, t: Tier) -> BoxedStrategy<CaseLarge> {
+        let max_n: u32 = t.pick(6_000, 70_000);
+        let n = prop_oneof![3 => 1_030u32..3_000, 2 => 3_000u32..max_n, 1 => 200u32..1_030];
+        (n, any::<u64>(), 1u8..5, prop_oneof![Just(0u8), Just(0u8), 2u8..20], prop_oneof![1 => Just(0u8), 4 => Just(1u8), 2 => Just(2u8), 1 => Just(3u8)], any::<bool>(), prop::bool::weighted(0.15), prop_oneof![4 => Just(0u8), 1 => Just(1u8), 1 => Just(2u8)], (0u8..10, any::<u16>()), (0u8..12, any::<u16>()))
+            .prop_map(|(n, seed, keys, absent_every, sort, desc, unique, group, (sk, sr), (tk, tr))| {
+                let frac = |r: u16, m: u32| ((r as u64 * (m as u64 + 1)) >> 16) as u32;
+                let skip = match sk {
+                    0..=2 => 0,
+                    3 => 1,
+                    4 => 2,
+                    5 => 7,
+                    6 => frac(sr, n),
+                    7 => 1000 + frac(sr, 100),
+                    8 => n.saturating_sub(1),
+                    _ => frac(sr, 40),
+                };
+                let take = match tk {
+                    0 => None,
+                    1 => Some(0),
+                    2 => Some(1),
+                    3 => Some(2),
+                    4 => Some(10),
+                    5 => Some(100),
+                    6 => Some(1023 + frac(tr, 3)),
+                    7 => Some(frac(tr, n)),
+                    8 => Some(n),
+                    _ => Some(1 + frac(tr, 30)),
+                };
+                CaseLarge { n, seed, keys, absent_every, sort, desc, unique, group, skip, take }
+            })
+            .boxed()
+    }
+    fn check(&self, c: &CaseLarge) -> CaseResult {
+        let input = Self::input(c);
+        let base = run(&Self::args(c, false, false), &input);
+        if !base.res.is_ok() {
+            return CaseResult::Fail(format!("unlimited run failed: {}", base.res.short()));
+        }
+        let all = lines(&base.stdout);
+        let s = (c.skip as usize).min(all.len());
+        let e = c.take.map(|t| (s + t as usize).min(all.len())).unwrap_or(all.len());
+        let slice = &all[s..e];
+        let lim = run(&Self::args(c, true, true), &input);
+        if !lim.res.is_ok() {
+            return CaseResult::Fail(format!("limited run failed: {} (args {:?})", lim.res.short(), Self::args(c, true, true)));
+        }
+        if c.group == 0 {
+            let got = lines(&lim.stdout);
+            if got != slice {
+                let first = got.iter().zip(slice.iter()).position(|(a, b)| a != b).unwrap_or(got.len().min(slice.len()));
+                return CaseResult::Fail(format!(
+                    "{:?} on {} rows printed {} rows that are not rows {}..{} of the {} unlimited rows; first difference at row {}: got {} expected {}",
+                    Self::args(c, true, true),
+                    c.n,
+                    got.len(),
+                    s,
+                    e,
+                    all.len(),
+                    first,
+                    got.get(first).map(|l| esc_trunc(l, 100)).unwrap_or_default(),
+                    slice.get(first).map(|l| esc_trunc(l, 100)).unwrap_or_default()
+                ));
+            }
+        } else {
+            let rows: Vec<RVal> = match slice.iter().map(|l| parse_one(l)).collect::<Result<_, _>>() {
+                Ok(r) => r,
+                Err(e) => return CaseResult::Fail(format!("unlimited row not JSON: {}", e)),
+            };
+            let model = if c.group == 1 { group_model_by(&rows, "gs") } else { RVal::Arr(rows) };
+            let got = match parse_rows(&lim.stdout) {
+                Ok(g) => g,
+                Err(e) => return CaseResult::Fail(e),
+            };
+            if got.len() != 1 {
+                return CaseResult::Fail(format!("grouping with limits printed {} rows instead of exactly one (args {:?})", got.len(), Self::args(c, true, true)));
+            }
+            if !same_value(&model, &got[0]) {
+                return CaseResult::Fail(format!("group built from the wrong rows (args {:?}, {} input rows): expected {} got {}", Self::args(c, true, true), c.n, trunc(&model.to_json(), 300), trunc(&got[0].to_json(), 300)));
+            }
+        }
+        let cut = c.take.map(|t| (c.skip as usize + t as usize) < all.len()).unwrap_or(false);
+        CaseResult::Pass(
+            Info::new(all.len() >= 1000 && (cut || c.skip > 0))
+                .class_if(c.sort > 0 && cut, "top_n_cut")
+                .class_if(c.sort > 0 && cut && all.len() > c.skip as usize + c.take.unwrap_or(0) as usize + 1024, "more_than_1024_surplus_rows")
+                .class_if(c.sort >= 2, "two_sort_keys")
+                .class_if(c.unique, "unique")
+                .class_if(c.group == 1, "group_by")
+                .class_if(c.group == 2, "merge")
+                .class_if(c.absent_every > 0, "rows_without_key")
+                .class_if(c.n > 65_536, "more_than_65536_rows")
+                .class_if(c.take.is_none(), "take_absent")
+                .obs(json!({"unlimited_rows": all.len(), "limited_bytes": lim.stdout.len()})),
+        )
+    }
+}
+
 pub fn run_all(ctx: &mut Ctx) {
-    ctx.rule = "C08.expr_slice: the same slice relation on configurations with generated expressions in every option (generator of C03: --set, --split-by, --filter, --select, --unique, 0..3 --sort-by, inputs that tie), plus: with --merge the single array is exactly that slice, with --group-by exactly one object whose rows all come from that slice. C08.slice: 0..40 records (keys from small pools of the universe, so ties are common) x generated pipeline (split, filter, select, unique, 0..3 sort keys, group-by/merge) x skip 0..6 x take absent|0..6; relation: rows(with limits) = rows(without)[S..S+T] byte for byte, or for group/merge the single output equals the documented grouping of that slice. non-trivial = >= 2 unlimited rows and (the cut falls inside a run of tied sort keys, or a multi-key sort is cut, or group/merge with a limit, or unique/split is cut). C08.exhaustive: every stream up to length 4 (quick) / 5 (thorough) over 4 keys x 8 fixed pipelines x all 56 limit pairs; distinct = enumeration index".into();
+    ctx.rule = "C08.large: 200..6000 rows (70000 in the thorough tier) derived from a seed, 1..4 distinct sort keys (long runs of ties), rows without the key, 0..2 sort keys, ASC/DESC, optionally --unique over repeating rows and group-by/merge, skip in {0,1,2,7, random, 1000..1100, n-1}, take in {absent,0,1,2,10,100,1023..1025, random, n}; same slice relation; non-trivial = >= 1000 unlimited rows and a limit that cuts. C08.expr_slice: the same slice relation on configurations with generated expressions in every option (generator of C03: --set, --split-by, --filter, --select, --unique, 0..3 --sort-by, inputs that tie), plus: with --merge the single array is exactly that slice, with --group-by exactly one object whose rows all come from that slice. C08.slice: 0..40 records (keys from small pools of the universe, so ties are common) x generated pipeline (split, filter, select, unique, 0..3 sort keys, group-by/merge) x skip 0..6 x take absent|0..6; relation: rows(with limits) = rows(without)[S..S+T] byte for byte, or for group/merge the single output equals the documented grouping of that slice. non-trivial = >= 2 unlimited rows and (the cut falls inside a run of tied sort keys, or a multi-key sort is cut, or group/merge with a limit, or unique/split is cut). C08.exhaustive: every stream up to length 4 (quick) / 5 (thorough) over 4 keys x 8 fixed pipelines x all 56 limit pairs; distinct = enumeration index".into();
     ctx.assumptions = vec!["the unlimited run of the same pipeline is the reference (metamorphic, jawk vs jawk); its own correctness is C03/C07/C09/C10's subject".into()];
     run_exhaustive(ctx);
+    C08Large.run(ctx);
     C08Slice.run(ctx);
     C08ExprSlice.run(ctx);
 }
 
 pub fn checks() -> Vec<Box<dyn DynCheck>> {
-    vec![Box::new(C08Slice), Box::new(C08Exhaustive), Box::new(C08ExprSlice)]
+    vec![Box::new(C08Slice), Box::new(C08Exhaustive), Box::new(C08ExprSlice), Box::new(C08Large)]
 }
